@@ -28,8 +28,10 @@ def treegen_types():
 
 
 def corpus():
-    sub = [("L", b"STR", False, 1), ("L", b"NUM", False, 2), ("L", b"HDR", False, 3), ("L", b"THREE", False, 4)]
-    sc = {1: ([], ["ds706f7461746f"]), 2: ([], ["di1", "di2"]), 3: ([], ["h4c4f4e47484541444552", "di1"]), 4: ([], ["ds706f7461746f", "di0", "db1"])}
+    sub = [("L", b"STR", False, 1), ("L", b"NUM", False, 2), ("L", b"HDR", False, 3), ("L", b"THREE", False, 4), ("L", b"ERRS", False, 5), ("L", b"QUOT", False, 6)]
+    sc = {1: ([], ["ds706f7461746f"]), 2: ([], ["di1", "di2"]), 3: ([], ["h4c4f4e47484541444552", "di1"]), 4: ([], ["ds706f7461746f", "di0", "db1"]),
+          5: ([], ["dEp-200x6578", "dEc7:6f6f7073x6122", "dEp-113", "dEc9:78"]),           # error items, with and without extended text
+          6: ([], ["ds2261222222", "ds22", "ds612262"])}                                       # strings made of quotes
     out = []
     # typed parameters of every family through the library's own next_data::<T>: allocation-free (implementation only)
     tsub = [("L", b"P", False, 1), ("L", b"Q", False, 2)]
@@ -37,9 +39,9 @@ def corpus():
         tsc = {1: (["r:" + ty, "o:" + ty], ["r:" + ty, "di1"]), 2: ([], ["o:" + ty, "ds6f6b"])}
         msgs = [b"P 2 V,1", b"P 2.5 VPK", b"P 3 mVrms,2 KHZ", b"P? 1e3", b"Q? MAX", b"P 10 DBM;Q? 'x'", b"P (1,2:3),(@1!2);Q? #H10", b"P? 2.5;Q? 1,2", b"P DEF,UP;Q? 5 S"]
         out.append(mk(treegen.case_line("64", tsub, tsc, msgs), model=False))
-    for m in [b"NUM?;STR?", b"STR?;NUM?;NUM?", b"HDR?", b"THREE?", b"NUM?"]:
+    for m in [b"NUM?;STR?", b"STR?;NUM?;NUM?", b"HDR?", b"THREE?", b"NUM?", b"ERRS?", b"NUM?;ERRS?", b"QUOT?", b"QUOT?;NUM?"]:
         out.append(mk(treegen.case_line("v", sub, sc, [m])))
-        for cap in range(0, 24):
+        for cap in (range(0, 24) if b"ERRS" not in m else range(0, 80)):
             out.append(mk(treegen.case_line(str(cap), sub, sc, [m])))
     return out
 
